@@ -312,6 +312,34 @@ func c13(x *mon.Ctx) {
 		add("component-wrong-type", fmt.Sprintf("comp%d-boolean", pos+1), "error", base, withTcb(pos, world.Seq(world.OID(2, pos+1), world.TLV(1, []byte{0xff}))), nil)
 		add("component-wrong-type", fmt.Sprintf("comp%d-null", pos+1), "error", base, withTcb(pos, world.Seq(world.OID(2, pos+1), world.TLV(5, nil))), nil)
 	}
+	// every other identifier octet in front of a value with the right content and length: other universal types, and the right
+	// tag number in another class (context / application / private) or in constructed form, are all the wrong ASN.1 type
+	retag := func(elem []byte, tag byte) []byte { // elem = SEQUENCE{OID, value}: replace the value's identifier octet
+		in := elem[2:]           // short-form outer length everywhere here
+		oidLen := 2 + int(in[1]) // OID TLV
+		out := append([]byte{}, elem...)
+		out[2+oidLen] = tag
+		return out
+	}
+	for _, e := range []struct {
+		name string
+		top  bool
+		idx  int
+		tag  byte
+	}{{"ppid", true, 0, 4}, {"pceid", true, 2, 4}, {"fmspc", true, 3, 4}, {"comp5", false, 4, 2}, {"comp1", false, 0, 2}, {"pcesvn", false, 16, 2}, {"cpusvn", false, 17, 4}} {
+		for t := 0; t < 256; t++ {
+			if byte(t) == e.tag || t&0x1f == 0x1f {
+				continue
+			}
+			var val []byte
+			if e.top {
+				val = withTop(e.idx, retag(mkTop(tcbE)[e.idx], byte(t)))
+			} else {
+				val = withTcb(e.idx, retag(tcbE[e.idx], byte(t)))
+			}
+			add("value-identifier-octet", fmt.Sprintf("%s/%#02x", e.name, t), "error", base, val, nil)
+		}
+	}
 	for _, v := range []int64{65536, 65537, 1 << 31, 1 << 40, -1, -32768} {
 		add("pcesvn-out-of-range", fmt.Sprint(v), "error", base, withTcb(16, world.Seq(world.OID(2, 17), world.Int(v))), nil)
 	}
@@ -456,6 +484,7 @@ func c13(x *mon.Ctx) {
 	x.Require("identical-duplicate-element", 0, 0, 48)
 	x.Require("tcb-element-order", 1000, 0, 1000)
 	x.Require("component-out-of-range", 0, 21, 21)
+	x.Require("value-identifier-octet", 0, 1700, 1700)
 	x.Require("pcesvn-out-of-range", 0, 6, 6)
 	x.Require("truncated", 0, 300, 300)
 	x.Require("signed-certificate", 100, 10, 300)
